@@ -28,8 +28,9 @@ META = {
     "text": "TLC checks that the implementation-shaped model of the compound startup hook and of the completion callback "
             "of a composed taskpool (every statement a step, callbacks nested inside parsec_context_add_taskpool for "
             "members without task or concurrent on another thread, compound enqueued before the start or into a running "
-            "context) refines the one-after-another specification for every layout of up to 3 (thorough: 4) members with "
-            "0..2 tasks, and that three other statement orders do not.  The terminal states of the model give the "
+            "context) refines the one-after-another specification for every layout of 2 members with 0..2 tasks and 3 members "
+            "with 0..1 task (thorough: 2..4 members with 0..2 tasks, 2 and 3 threads), and that three other statement "
+            "orders do not.  The terminal states of the model give the "
             "scenarios replayed on the real code; in addition every layout of 1..6 tiny / empty members under both usages, "
             "1-4 threads and several schedulers, runs where the enabling thread is held back until another thread has "
             "finished the successor, and compositions of 1..20 generated PTG taskpools (some with an empty execution "
@@ -82,19 +83,50 @@ def layouts_tla(lo, hi, maxt):
 def model_level(ctx, d):
     """Returns the scenarios (layout, usage, sync, win) of the terminal states of the model with the code's order."""
     maxp = 3 if ctx.quick else 4
+    ctx.scratch
+    jobs = []          # (name, module, cfg, keyword arguments of tlc.check)
     mod, cfg = mcgen.write_mc(d, "abs", "Compound", {"Layouts": layouts_tla(1, maxp, 2)},
                               invariants=("OneAfterAnother", "CompletesOnceAfterLast"), deadlock=True)
-    ctx.tlc_check(d, mod, cfg, must_cover=("TaskStart", "TaskEnd", "PoolDone", "CompoundDone"), workers=2,
-                  jvm=ptgrun.JVM_SHORT)
-    sizes = [(maxp, 2)] if ctx.quick else [(4, 2), (3, 3)]
-    scen = {}
-    for mp, nth in sizes:
-        consts = {"Layouts": layouts_tla(2, mp, 2), "NTH": nth, "Order": "code", "Usages": {"before", "running"}}
+    jobs.append(("abs", mod, cfg, {"must_cover": ("TaskStart", "TaskEnd", "PoolDone", "CompoundDone"), "workers": 1}))
+    for mp, nth in ([(maxp, 2)] if ctx.quick else [(4, 2), (3, 3)]):
+        # quick: 2 members with 0..2 tasks and 3 members with 0..1 task; thorough: 2..mp members with 0..2 tasks
+        lay = mcgen.Raw("[1..2 -> 0..2] \\cup [1..3 -> 0..1]") if ctx.quick else layouts_tla(2, mp, 2)
+        consts = {"Layouts": lay, "NTH": nth, "Order": "code", "Usages": {"before", "running"}}
         mod, cfg = mcgen.write_mc(d, "impl_code_%d_%d" % (mp, nth), "CompoundImpl", consts, invariants=IMPL_INV,
                                   properties=("Refines",), deadlock=True)
-        r = ctx.tlc_check(d, mod, cfg, must_cover=IMPL_COVER, workers=2 if ctx.quick else 4, jvm=ptgrun.JVM_SHORT,
-                          timeout=3000)
-        for line in r.printed:
+        jobs.append(("code", mod, cfg, {"must_cover": IMPL_COVER, "workers": 2, "timeout": 3000}))
+    # sensitivity: each of the other statement orders must be rejected (property-level invariants, refinement, deadlock)
+    small = {"Layouts": layouts_tla(2, 3, 1), "NTH": 2, "Usages": {"before", "running"}}
+    expect = {"cursor_after_enable": ("EnabledOnce",), "account_after_enable": ("deadlock",),
+              "ready_before_account": None}
+    for order in expect:
+        consts = dict(small)
+        consts["Order"] = order
+        mod, cfg = mcgen.write_mc(d, "impl_" + order, "CompoundImpl", consts, invariants=PROP_INV,
+                                  properties=("Refines",), deadlock=True)
+        jobs.append((order, mod, cfg, {"workers": 1}))
+    # the JVM start dominates these runs: three at a time (at most 4 TLC worker threads in total)
+    jobs.sort(key=lambda j: -j[3]["workers"])
+    with concurrent.futures.ThreadPoolExecutor(max_workers=3) as pool:
+        results = list(pool.map(lambda j: tlc.check(d, j[1], j[2], jvm=ptgrun.JVM_SHORT, **j[3]), jobs))
+    scen, got = {}, {}
+    for (name, mod, cfg, kw), r in zip(jobs, results):
+        ctx.states += r.distinct
+        ctx.transitions += r.generated
+        ctx.models.append({"module": mod, "cfg": cfg, "distinct": r.distinct, "generated": r.generated, "depth": r.depth,
+                           "wall_s": round(r.wall, 1),
+                           "coverage": {k: v[0] for k, v in r.coverage.items()} if r.coverage else None})
+        if name in expect:
+            want = expect[name]
+            got[name] = "ok" if r.ok else (r.violated or "refinement")
+            if r.ok or (want is not None and r.violated not in want):
+                raise tlc.TLCError("sensitivity self-test: CompoundImpl with Order=%s must be rejected (%s), got %r" % (
+                    name, want or "any", got[name]))
+            continue
+        if not r.ok:
+            raise tlc.TLCError("specification Context/%s (%s) does not satisfy its own properties (%s); this is a model "
+                               "failure, not a verdict about the code\n%s" % (mod, cfg, r.violated, r.out[-2500:]))
+        for line in (r.printed if name == "code" else []):
             h = tlc._parse_tla_string_list(line)
             if h is None:
                 raise tlc.TLCError("unreadable scenario line printed by CompoundImpl: %r" % line[:200])
@@ -103,21 +135,6 @@ def model_level(ctx, d):
     if not scen or not any(s["win"] for s in scen.values()) or not any(s["sync"] for s in scen.values()):
         raise tlc.TLCError("vacuity guard: CompoundImpl produced %d scenarios, none with a nested / concurrent completion"
                            % len(scen))
-    # sensitivity: each of the other statement orders must be rejected (property-level invariants, refinement, deadlock)
-    small = {"Layouts": layouts_tla(2, 3, 1), "NTH": 2, "Usages": {"before", "running"}}
-    expect = {"cursor_after_enable": ("EnabledOnce",), "account_after_enable": ("deadlock",),
-              "ready_before_account": None}
-    got = {}
-    for order, want in expect.items():
-        consts = dict(small)
-        consts["Order"] = order
-        mod, cfg = mcgen.write_mc(d, "impl_" + order, "CompoundImpl", consts, invariants=PROP_INV,
-                                  properties=("Refines",), deadlock=True)
-        r = ctx.tlc_check(d, mod, cfg, expect_ok=False, workers=1, jvm=ptgrun.JVM_SHORT)
-        got[order] = "ok" if r.ok else (r.violated or "refinement")
-        if r.ok or (want is not None and r.violated not in want):
-            raise tlc.TLCError("sensitivity self-test: CompoundImpl with Order=%s must be rejected (%s), got %r" % (
-                order, want or "any", got[order]))
     ctx.extra["model_sensitivity"] = got
     ctx.extra["model_scenarios"] = len(scen)
     ctx.exhaustive = True
@@ -225,7 +242,9 @@ def run_compound_config(ctx, exe, runs, ids, cfg, ci, window_ms):
                 res[i] = per[i]
                 last = pos
         if rc == 0:
-            todo = todo[last + 1:]
+            if last != len(todo) - 1:
+                raise tlc.TLCError("compound_run ended normally after %d of %d compositions: %s" % (last + 1, len(todo), err))
+            todo = []
             break
         if last < 0:
             raise tlc.TLCError("compound_run died before its first composition (rc=%s): %s" % (rc, err))
@@ -305,7 +324,7 @@ def compound_compositions(ctx, d, scenarios):
                 metas.append(meta)
     # a composition that did not complete: believe it only when it does not complete with a 10x window either
     confirmed = []
-    for ci, i, meta, ex in hung[:4]:
+    for ci, i, meta, ex in hung[:2]:
         per, rc, st, err = run_compound_process(ctx, exe, runs, [i], cfgs[ci], "again-%d-%d" % (ci, i), 10 * window,
                                                 timeout=300 + 10 * window // 1000)
         ex2 = to_execution(per.get(i))
@@ -470,6 +489,7 @@ def run(ctx):
 
 
 def selftests(ctx, d, executions, metas, distinct):
+    """Sensitivity of CompoundTrace: an accepted execution with one change must be rejected (else tool error)."""
     def overlap(ex):        # the first body of the second member moved before the last End of the first
         i2 = [i for i, ev in enumerate(ex) if ev.get("e") == "Start" and ev.get("sp") == 1]
         e1 = [i for i, ev in enumerate(ex) if ev.get("e") == "End" and ev.get("sp") == 0]
@@ -490,17 +510,31 @@ def selftests(ctx, d, executions, metas, distinct):
     def no_done(ex):        # the compound never completed
         return [ev for ev in ex if ev.get("e") != "TpDone"]
 
+    tests = []
     cands = [executions[i] for i, m in enumerate(metas) if m["members"] in (2, 3) and all(g[0] > 0 for g in m["globals"])]
     if cands:
-        ptgrun.corruption_selftest(ctx, d, "CompoundTrace", "CompoundTrace.cfg", cands[0], overlap,
-                                   "a body of member 2 before the end of member 1")
-        ptgrun.corruption_selftest(ctx, d, "CompoundTrace", "CompoundTrace.cfg", cands[0], early_done,
-                                   "completion callback before the members ran")
+        tests.append((cands[0], overlap, "a body of member 2 before the end of member 1"))
+        tests.append((cands[0], early_done, "completion callback before the members ran"))
     cands = [ex for ex in distinct if len(ex[0]["sizes"]) >= 3 and ex[0]["sizes"][0][0] > 0 and ex[0]["sizes"][1][0] == 0
              and ex[0]["sizes"][2][0] > 0]
     if cands:
-        ptgrun.corruption_selftest(ctx, d, "CompoundTrace", "CompoundTrace.cfg", cands[0], no_done,
-                                   "a composition with an empty member that never completes")
+        tests.append((cands[0], no_done, "a composition with an empty member that never completes"))
+    work = []
+    for k, (ex, fn, what) in enumerate(tests):
+        bad = fn(json.loads(json.dumps(ex)))
+        if bad is None:
+            continue
+        path = os.path.join(ctx.scratch, "selftest-%d.ndjson" % k)
+        tracecheck._write(bad, path)
+        work.append((path, what, len(bad)))
+    with concurrent.futures.ThreadPoolExecutor(max_workers=3) as pool:
+        res = list(pool.map(lambda w: tracecheck.validate_file(d, "CompoundTrace", "CompoundTrace.cfg", w[0], timeout=600), work))
+    for (path, what, n), (v, r) in zip(work, res):
+        ctx.extra["trace_tlc_runs"] = ctx.extra.get("trace_tlc_runs", 0) + 1
+        if v.accepted:
+            raise tlc.TLCError("sensitivity self-test of CompoundTrace failed (%s): the corrupted execution was accepted" % what)
+        ctx.extra.setdefault("corruption_selftests", []).append({"what": what, "events": n, "rejected": True,
+                                                                 "reason": v.reason})
 
 
 def replay(ctx, obj):
